@@ -252,7 +252,7 @@ impl Check for CanonCheck {
             });
             match res {
                 Err(p) => {
-                    if p.loc.contains("/verif/sim/") {
+                    if p.is_harness() {
                         panic!("harness panic: {} at {}", p.msg, p.loc);
                     }
                     out.violations.push(panic_violation("C09", "no_panic_in_lookup_or_add", &p, ci));
